@@ -131,9 +131,12 @@ class Scope(object):
 
   @property
   def referenced(self):
+    # Note: includes symbols that are only assigned (or otherwise bound); names
+    # generated by the converters must not clash with those either.
+    used = self.read | self.modified | self.bound
     if self.parent is not None:
-      return self.read | self.parent.referenced
-    return self.read
+      return used | self.parent.referenced
+    return used
 
   @property
   def free_vars(self):
